@@ -82,13 +82,18 @@ def case_strategy(draw: Any, carrier: str) -> Dict[str, Any]:
         "app_messages": draw(st.lists(st.one_of(
             st.builds(lambda t: {"text": t}, _text),
             st.builds(lambda n, s: {"bytes": b2s(bytes((s + i) % 256 for i in range(n)))},
-                      st.sampled_from([0, 1, 10, 300, 70000]), st.integers(0, 255))),
+                      st.sampled_from([0, 1, 10, 300, 70000, 150000]), st.integers(0, 255))),
             max_size=3)),
         "client_close": draw(st.sampled_from([1000, 1000, 3001, None])),
         "bytes_as": draw(st.sampled_from(["bytes", "bytes", "bytearray", "memoryview"])),
         # another WebSocket connection of the same worker, opened first and still open: what it
         # negotiated (compression) and exchanged must not leak into this one
         "prelude": draw(st.sampled_from([None, None, {"deflate": True}, {"deflate": False}])),
+        # HTTP/2 carrier: the client returns flow-control credit at once, or only after it has
+        # sent everything it has to say (the server's messages wait on an exhausted window while
+        # the client's messages and pings keep arriving)
+        "credit": draw(st.sampled_from(["prompt", "prompt", "late"])) if carrier == "h2"
+        else "prompt",
     }
 
 
@@ -131,6 +136,8 @@ async def scenario(env: Any, case: Dict[str, Any]) -> Any:
                                                compress=neg, mask_seed=77)))
         await env.settle(5.0)
     ws = WSSession(env, case["carrier"])
+    if case.get("credit") == "late":
+        ws.ack_policy = "manual"  # from the start: what the application sends on accepting counts
     status = await ws.open(extensions="permessage-deflate" if case["deflate"] else None)
     out = {"ws": ws, "status": status, "negotiated": False, "pre": pre}
     if status not in (101, 200):
@@ -156,9 +163,20 @@ async def scenario(env: Any, case: Dict[str, Any]) -> Any:
                 stream += ping_frame(pings.pop(0).encode())
         for p in pings:
             stream += ping_frame(p.encode())
+    late = case.get("credit") == "late" and ws.client is not None
     await ws.send(bytes(stream), seg=case["seg"])
     await env.settle(50.0)
     await ws.pump()
+    if late:
+        ws.client.ack_policy = "immediate"
+        for _ in range(200):
+            had = bool(ws.client.unacked)
+            ws.client.release_acks()
+            await ws.pump()
+            await env.settle(5.0)
+            await ws.pump()
+            if not had and not ws.client.unacked:
+                break
     await ws.send(close_frame(case["client_close"]))
     await env.settle(50.0)
     await ws.pump()
